@@ -109,7 +109,16 @@ def generate(run_seed, tier):
         m0['mix'] = 0.0
     mcfg['cia_pairs'] = ['H2-H2', 'H2-He'][:c.randint(1, 2)]
     mcfg['new_path'] = c.random() < 0.3
-    if c.random() < 0.25:
+    if c.random() < 0.12:
+        # correlated-k mode: the absorbers come from k-tables on disk (the
+        # per-molecule product and the weighting relations do not apply to
+        # that source; the composition over SOURCES, the order independence,
+        # zero abundance and history independence do)
+        mcfg['ktables'] = True
+        mcfg['opac']['ngauss_k'] = c.randint(2, 4)
+        for m in mcfg['molecules']:
+            m.pop('gas', None)
+    if c.random() < 0.25 and not mcfg.get('ktables'):
         # one molecule's table on its own wavenumber grid (same end points
         # and length as the others', other spacing)
         mols_ = [m['name'] for m in mcfg['molecules']
@@ -221,6 +230,15 @@ def execute(case, keep_text=False):
         out.violations.append(Violation(cls, key, detail, step))
 
     install(cfg)
+    ktab = bool(cfg.get('ktables'))
+    if ktab:
+        import os
+        kdir = os.path.join(os.environ.get('VERIF_RUN_SCRATCH', '/dev/shm'),
+                            'c03-ktables')
+        import shutil
+        shutil.rmtree(kdir, ignore_errors=True)
+        R.install_ktables(cfg, kdir)
+        out.bump('probes', 'correlated_k_mode')
     model = build(cfg)
     built_list = list(model.contribution_list)
     names = [c.name for c in built_list]
@@ -366,6 +384,8 @@ def execute(case, keep_text=False):
             _, per = model.model_contrib()
             check_list(step, 'model_contrib')
             for nme in names:
+                if ktab and nme == 'Absorption':
+                    continue      # molecules share the quadrature points
                 comps = d[nme]
                 prod = np.ones_like(Tfull)
                 for cname, absorp, tau, _x in comps:
@@ -399,7 +419,7 @@ def execute(case, keep_text=False):
         nl = model.nLayers
         chem = model.chemistry
         for cname in ('Absorption', 'CIA', 'Rayleigh'):
-            if cname not in full:
+            if cname not in full or (ktab and cname == 'Absorption'):
                 continue
             for nme, absorp, T_impl, _x in full[cname]:
                 if cname == 'Absorption':
@@ -538,6 +558,8 @@ def execute(case, keep_text=False):
                         else:
                             _, per = model.model_contrib(wngrid=sub)
                             for nme in names:
+                                if ktab and nme == 'Absorption':
+                                    continue
                                 prod = np.ones_like(per[nme][1])
                                 for cname, absorp, tau, _x in got[1][nme]:
                                     prod = prod * tau
@@ -596,6 +618,8 @@ def execute(case, keep_text=False):
                 late[0] = True
                 out.bump('probes', 'source_added_after_build')
             elif k == 'set_interp':
+                if ktab:
+                    continue
                 from taurex.cache import OpacityCache
                 OpacityCache().set_interpolation(op[1])
                 R.readd_opacities(cfg, op[1])
@@ -612,6 +636,8 @@ def execute(case, keep_text=False):
                 mol = op[1]
                 if mol not in model.fittingParameters or invalid[0]:
                     continue
+                if ktab and k == 'double':
+                    continue      # (proportionality is a cross-section clause)
                 cur = model.fittingParameters[mol][2]()
                 if k == 'zero':
                     # R4: a species at zero abundance changes nothing
@@ -628,7 +654,11 @@ def execute(case, keep_text=False):
                     check_list(step, 'zero')
                     for cname, comps in full.items():
                         for nme, absorp, tau, _x in comps:
-                            if nme == mol and not np.all(tau == 1.0):
+                            if nme == mol and not (
+                                    np.all(tau == 1.0) or (ktab and np.all(
+                                        np.abs(tau - 1.0) <= 1e-12))):
+                                # (quadrature weights sum to one only up to
+                                # round-off in correlated-k mode)
                                 viol('composition', 'R4:zero-not-transparent',
                                      '%s/%s at zero abundance has '
                                      'transmittance != 1 (min %r)'
